@@ -295,7 +295,11 @@ class Distribution(Density, ABC):
                 # If any keywords matched we evaluate callable variable
                 if len(var_args)==len(accepted_keywords):  #All keywords found
                     # Define variable as the output of callable function
-                    setattr(new_dist, var_key, var_val(**var_args))
+                    # (copied if it is an array: the callable may return one and the same work array on every call)
+                    var_out = var_val(**var_args)
+                    if isinstance(var_out, np.ndarray):
+                        var_out = var_out.copy()
+                    setattr(new_dist, var_key, var_out)
 
                 elif len(var_args)>0:                      #Some keywords found
                     # Define new partial function with partially defined args
